@@ -320,9 +320,9 @@ fn run(ctx: &mut Ctx) {
         }
     }
     // (c) contents: every length residue for every DST slot, between two other tags
-    ctx.bound("contents", "every DST slot with content seeds 0..=17 (string / blob / array lengths covering every padding residue), called between meminfo and image_load_addr; custom tags with three type numbers; add_custom_tag with a specified type must panic (documented)");
+    ctx.bound("contents", "every DST slot with content seeds 0..=17 and 50..=52, 13107, 13108 (string / blob / array lengths covering every padding residue and the 8- and 16-bit counter boundaries: 253..263, 65538, 65543 bytes), called between meminfo and image_load_addr; custom tags with three type numbers; add_custom_tag with a specified type must panic (documented)");
     for slot in [0usize, 1, 2, 5, 7, 8, 12, 15, 16, 21] {
-        for c in 0..=17usize {
+        for c in (0..=17usize).chain([50, 51, 52, 13107, 13108]) {
             let prog = vec![(3usize, 0usize), (slot, c), (20, 1), (slot, (c + 1) % 18)];
             let describe = || J::obj().set("part", "contents").set("slot", SLOT_NAMES[slot]).set("content_seed", c);
             ctx.leaf(describe, |ctx| {
